@@ -328,7 +328,7 @@ compactions).  `Sys.node s n` assembles the layer records `Upstream.Mgr` / `Clus
 The composition: C02 (`C02_caught_up_exact`: a caught-up view is the owner's map) → flow invariant
 (`SysInv.view_not_left`) → C14 (`NodeInv.fold_view`: the notification fold is the visible view) →
 filtering of address deletes (`Proofs/SysTrace.lean`; `AddrStable` itself is NOT guaranteed by the
-gossip layer, see `sys_addrStable_counterexample` below) → `C04_mirror` → "syncer = pure syncer run"
+gossip layer, see `C04_addrStable_not_guaranteed` below) → `C04_mirror` → "syncer = pure syncer run"
 (`NodeInv.agree`) → C05 (`SysInv.owner_shows`). -/
 
 open Piko.Gossip in
@@ -481,6 +481,245 @@ theorem C04_caught_up_after_settle (ops sched : List SysOp) (hall : SysAllowed (
   rw [hgr1] at h1; cases h1
   rw [hga1] at h2; cases h2
   exact ⟨V, h4, by rw [h5, h3]⟩
+
+
+/-! ### Finding: the gossip layer does NOT guarantee `AddrStable`
+
+`C04_table_spec` assumes that `OnDeleteKey` is never called for an address key.  The system model
+(and, step for step, the Go code it mirrors) does call it, without any packet being forged:
+
+* `a` publishes its addresses (versions 1, 2); observer `v` learns them;
+* `a` registers/withdraws endpoints and compacts (marker `c₁` at version 9, value 5: "drop ≤ 5");
+  `n` learns `a` in that state; `a` registers/withdraws again and compacts a second time (its
+  addresses are now re-versioned to 12, 13);
+* `n` pulls from `a` and - the reply being truncated - gets only the two re-versioned address entries;
+  it still holds `c₁`;
+* `v` (at version 2) pulls from `n`: `n`'s relayed view of `a` above version 2 is
+  `[endpoint:z@8, c₁@9, proxy_addr@12, admin_addr@13]`.  Applying `c₁` makes `v` drop its own copies of
+  the address keys (versions 1, 2 ≤ 5): `OnDeleteKey(a, admin_addr)`, `OnDeleteKey(a, proxy_addr)`;
+  two entries later they are back (`OnUpsertKey`, same values).
+
+Had that last delta been truncated after `c₁`, `v` would show `a` without addresses until its next
+pull.  The syncer is immune (it ignores both callbacks for a node it already has), which is why
+`C04_mirror_system` holds regardless - its proof filters those notifications out
+(`Proofs/SysTrace.lean`) instead of assuming they do not occur.
+
+`C04_addrStable_not_guaranteed` is the last step, kernel-checked on the literal observer state and
+relayed delta; the `#guard`s below evaluate the whole system run `addrCexOps` (compiled evaluation,
+not a proof) and check that it produces exactly that situation, and that `v`'s routing table is
+right all the same. -/
+
+/-- the schedule of the finding, in the system model (latest first) -/
+def addrCexOps : List SysOp := [
+  .deliver 3 0 [] 0 0,                       -- the relayed delta reaches `v`
+  .deliver 2 100 [] 0 0,                     -- `n` answers with everything it has about `a` above 2
+  .sendDigest "v" "gn" false [0, 1, 2] 3,    -- `v` gossips with `n`
+  .deliver 1 0 [] 0 0,                       -- ... which reaches `n`
+  .deliver 0 3 [] 0 0,                       -- `a` answers, truncated after the two address entries
+  .sendDigest "n" "ga" false [0, 1, 2] 3,    -- `n` gossips with `a`
+  .compact "a" 1,                            -- second compaction of `a`
+  .removeConn "a" 2 "w", .addConn "a" 2 "w",
+  .join "n" "a" true 0,                      -- `n` learns `a` (after the first compaction)
+  .compact "a" 1,                            -- first compaction of `a`
+  .removeConn "a" 1 "y", .addConn "a" 3 "z", .addConn "a" 1 "y",
+  .join "v" "a" true 0,                      -- `v` learns `a`'s two addresses (versions 1, 2)
+  .boot "v" "gv" "pv" "av", .boot "n" "gn" "pn" "an", .boot "a" "ga" "P" "A"]
+
+/-- `v`'s gossip state before the last delivery -/
+def addrCexObserver : Gossip.CState :=
+  { localId := "v",
+    nodes := [("a", { id := "a", addr := "ga", version := 2, entries :=
+                 [("admin_addr", { key := "admin_addr", value := "A", version := 2 }),
+                  ("proxy_addr", { key := "proxy_addr", value := "P", version := 1 })] }),
+              ("v", { id := "v", addr := "gv", version := 2, entries :=
+                 [("admin_addr", { key := "admin_addr", value := "av", version := 2 }),
+                  ("proxy_addr", { key := "proxy_addr", value := "pv", version := 1 })] })] }
+
+/-- the delta `n` relays: `a`'s entries above version 2 as `n` holds them -/
+def addrCexDelta : Gossip.Delta :=
+  [{ id := "a", addr := "ga", entries :=
+      [{ key := "endpoint:z", value := "1", version := 8 },
+       { key := "_internal:compact", value := "5", version := 9, internal := true },
+       { key := "proxy_addr", value := "P", version := 12 },
+       { key := "admin_addr", value := "A", version := 13 }] }]
+
+#guard (Sys.runRev (addrCexOps.drop 1)).net.pool[3]? == some (Gossip.Packet.delta "n" "gn" "gv" addrCexDelta)
+#guard ((Sys.runRev (addrCexOps.drop 1)).net.nodes.find "v").map (·.nodes) == some addrCexObserver.nodes
+#guard ((Sys.runRev addrCexOps).node "v").map (fun x => decide (AddrStable "v" x.evs)) == some false
+#guard ((Sys.runRev addrCexOps).node "v").map (fun x => x.mgr.cluster.nodes.find "a") ==
+  some (some { id := "a", status := .active, proxyAddr := "P", adminAddr := "A", endpoints := [("z", 1)] })
+
+/-- **The watcher is told that the address keys were deleted**, and the notification history of `v`
+(`join a`, the two addresses, then this delivery) is not `AddrStable`; the delta is one the package
+itself produced (`deltaOK`), sorted and gap-free. -/
+theorem C04_addrStable_not_guaranteed :
+    Gossip.deltaOK addrCexDelta = true ∧
+    (Gossip.applyDelta 0 addrCexObserver addrCexDelta).2 =
+      [.upsert "a" "endpoint:z" "1", .delete "a" "admin_addr", .delete "a" "proxy_addr",
+       .upsert "a" "proxy_addr" "P", .upsert "a" "admin_addr" "A"] ∧
+    ¬ AddrStable "v" ([.join "a", .upsert "a" "proxy_addr" "P", .upsert "a" "admin_addr" "A"] ++
+        (Gossip.applyDelta 0 addrCexObserver addrCexDelta).2) := by
+  decide
+
+/-! ### Non-vacuity: a concrete three-node run
+
+The history `SysEx.hist` (three boots, upstreams connecting on two nodes, one connecting and
+disconnecting) is evaluated by `decide`; the six stream exchanges of `SysEx.sched` are discharged by
+the theorems (the kernel cannot evaluate `List.mergeSort`, which every exchange uses), exactly as the
+non-vacuity example of `C03_converges_all` does. -/
+
+namespace SysEx
+
+/-- three nodes boot; upstream 3 registers `foo` on `n1`, upstream 5 registers `foo` on `n2`, upstream 7
+registers `bar` on `n1` and disconnects again (latest operation first) -/
+def hist : List SysOp :=
+  [.removeConn "n1" 7 "bar", .addConn "n1" 7 "bar", .addConn "n2" 5 "foo", .addConn "n1" 3 "foo",
+   .boot "n2" "g2" "p2" "a2", .boot "n1" "g1" "p1" "a1", .boot "n0" "g0" "p0" "a0"]
+
+/-- the settle schedule: one full exchange for each of the six ordered pairs, nothing else -/
+def sched : List SysOp :=
+  [.join "n2" "n1" true 6, .join "n2" "n0" true 5, .join "n1" "n2" true 4,
+   .join "n1" "n0" true 3, .join "n0" "n2" true 2, .join "n0" "n1" true 1]
+
+theorem allowed : SysAllowed (sched ++ hist) := by
+  simp [sched, hist, SysAllowed, SysStepAllowed]
+
+theorem quiet : ∀ op ∈ sched, op.quiet.isSome = true := by decide
+
+theorem noLiveness : ∀ op ∈ sched ++ hist, ∀ n sus now, op ≠ .liveness n sus now := by
+  intro op hop n sus now
+  simp only [sched, hist, List.cons_append, List.nil_append, List.mem_cons, List.not_mem_nil, or_false] at hop
+  rcases hop with rfl | rfl | rfl | rfl | rfl | rfl | rfl | rfl | rfl | rfl | rfl | rfl | rfl <;> simp
+
+/-- what a node is at the end of `hist`: its balancers, the local row of its table, whether it left -/
+def summary (s : Sys) (k : String) : Option (AMap String Upstream.LB × Cluster.Node × Bool) :=
+  (s.node k).map fun x => (x.mgr.lbs, x.mgr.cluster.localNode, (own x.mgr.gossip).left)
+
+set_option maxRecDepth 8000 in
+theorem hist_keys : (Sys.runRev hist).side.keys = ["n1", "n2", "n0"] := by decide
+
+set_option maxRecDepth 8000 in
+theorem hist_n0 : summary (Sys.runRev hist) "n0" =
+    some ([], { id := "n0", status := .active, proxyAddr := "p0", adminAddr := "a0" }, false) := by decide
+set_option maxRecDepth 8000 in
+theorem hist_n1 : summary (Sys.runRev hist) "n1" =
+    some ([("foo", { ups := [3] })],
+      { id := "n1", status := .active, proxyAddr := "p1", adminAddr := "a1", endpoints := [("foo", 1)] }, false) := by decide
+set_option maxRecDepth 8000 in
+theorem hist_n2 : summary (Sys.runRev hist) "n2" =
+    some ([("foo", { ups := [5] })],
+      { id := "n2", status := .active, proxyAddr := "p2", adminAddr := "a2", endpoints := [("foo", 1)] }, false) := by decide
+
+
+theorem node_mem {k : String} (h : ((Sys.runRev hist).node k).isSome = true) : k = "n1" ∨ k = "n2" ∨ k = "n0" := by
+  have hs : ((Sys.runRev hist).side.find k).isSome = true := by
+    unfold Sys.node at h
+    cases hf : (Sys.runRev hist).side.find k with
+    | none => simp [hf] at h
+    | some sd => rfl
+  cases hf : (Sys.runRev hist).side.find k with
+  | none => rw [hf] at hs; cases hs
+  | some sd =>
+    have := C14.mem_keys_of_find hf
+    rw [hist_keys] at this
+    simpa using this
+
+theorem joins : ∀ r a, r ≠ a → ((Sys.runRev hist).node r).isSome = true → ((Sys.runRev hist).node a).isSome = true →
+    ∃ now, SysOp.join r a true now ∈ sched := by
+  intro r a hne hr ha
+  rcases node_mem hr with rfl | rfl | rfl <;> rcases node_mem ha with rfl | rfl | rfl <;>
+    first
+    | exact absurd rfl hne
+    | exact ⟨_, by simp [sched]; rfl⟩
+
+/-- the settle schedule changed no registry, no local row and nobody's left-flag -/
+theorem summary_final (k : String) : summary (Sys.runRev (sched ++ hist)) k = summary (Sys.runRev hist) k := by
+  cases h0 : (Sys.runRev hist).node k with
+  | some x0 =>
+    obtain ⟨x1, h1, hl, ht, ho⟩ := Sys.quiet_keeps sched hist allowed quiet k x0 h0
+    simp [summary, h0, h1, hl, ht, ho]
+  | none =>
+    cases h1 : (Sys.runRev (sched ++ hist)).node k with
+    | none => simp [summary, h0, h1]
+    | some x1 =>
+      exfalso
+      obtain ⟨sd, g, hsd, _, _⟩ := Sys.node_eq h1
+      have hdom := Sys.side_dom_quiet sched hist quiet k
+      rw [hsd] at hdom
+      cases hs0 : (Sys.runRev hist).side.find k with
+      | none => rw [hs0] at hdom; cases hdom
+      | some sd0 =>
+        obtain ⟨g0, hg0⟩ := (sysInv_runRev hist (sysAllowed_append sched hist allowed)).net_of_side hs0
+        simp [Sys.node, hs0, hg0] at h0
+
+/-- every node of the final state is one of the three, unchanged in registry, local row and left-flag -/
+theorem final_node {k : String} {x : SysNode} (h : (Sys.runRev (sched ++ hist)).node k = some x) :
+    (k = "n0" ∧ x.mgr.lbs = [] ∧
+        x.mgr.cluster.localNode = { id := "n0", status := .active, proxyAddr := "p0", adminAddr := "a0" } ∧
+        (own x.mgr.gossip).left = false) ∨
+    (k = "n1" ∧ x.mgr.lbs = [("foo", { ups := [3] })] ∧
+        x.mgr.cluster.localNode =
+          { id := "n1", status := .active, proxyAddr := "p1", adminAddr := "a1", endpoints := [("foo", 1)] } ∧
+        (own x.mgr.gossip).left = false) ∨
+    (k = "n2" ∧ x.mgr.lbs = [("foo", { ups := [5] })] ∧
+        x.mgr.cluster.localNode =
+          { id := "n2", status := .active, proxyAddr := "p2", adminAddr := "a2", endpoints := [("foo", 1)] } ∧
+        (own x.mgr.gossip).left = false) := by
+  have hs := summary_final k
+  have hsome : ((Sys.runRev hist).node k).isSome = true := by
+    cases h0 : (Sys.runRev hist).node k with
+    | some _ => rfl
+    | none => simp [summary, h0, h] at hs
+  simp only [summary, h, Option.map_some] at hs
+  rcases node_mem hsome with rfl | rfl | rfl
+  · have := hist_n1; simp only [summary] at this; rw [← hs] at this
+    simp only [Option.some.injEq, Prod.mk.injEq] at this
+    exact Or.inr (Or.inl ⟨rfl, this.1, this.2.1, this.2.2⟩)
+  · have := hist_n2; simp only [summary] at this; rw [← hs] at this
+    simp only [Option.some.injEq, Prod.mk.injEq] at this
+    exact Or.inr (Or.inr ⟨rfl, this.1, this.2.1, this.2.2⟩)
+  · have := hist_n0; simp only [summary] at this; rw [← hs] at this
+    simp only [Option.some.injEq, Prod.mk.injEq] at this
+    exact Or.inl ⟨rfl, this.1, this.2.1, this.2.2⟩
+
+theorem final_exists (k : String) (hk : k = "n0" ∨ k = "n1" ∨ k = "n2") :
+    ∃ x, (Sys.runRev (sched ++ hist)).node k = some x := by
+  have h := summary_final k
+  have h0 : (summary (Sys.runRev hist) k).isSome = true := by
+    rcases hk with rfl | rfl | rfl
+    · rw [hist_n0]; rfl
+    · rw [hist_n1]; rfl
+    · rw [hist_n2]; rfl
+  rw [← h] at h0
+  unfold summary at h0
+  cases hx : (Sys.runRev (sched ++ hist)).node k with
+  | none => rw [hx] at h0; cases h0
+  | some x => exact ⟨x, rfl⟩
+
+end SysEx
+
+open SysEx in
+/-- **Non-vacuity of `C04_mirror_system`** on the concrete run: after the six exchanges `n0`'s routing
+table lists `n1` with its addresses, `active`, with `foo ↦ 1` (upstream 3) and without `bar` (upstream 7
+disconnected before anybody heard of it; its tombstone still travelled). -/
+example : ∃ x row, (Sys.runRev (sched ++ hist)).node "n0" = some x ∧ x.mgr.cluster.nodes.find "n1" = some row ∧
+    x.sync.pending.find "n1" = none ∧ row.proxyAddr = "p1" ∧ row.adminAddr = "a1" ∧ row.status = .active ∧
+    row.endpoints.find "foo" = some 1 ∧ row.endpoints.find "bar" = none := by
+  obtain ⟨x0, h0⟩ := final_exists "n0" (Or.inl rfl)
+  obtain ⟨x1, h1⟩ := final_exists "n1" (Or.inr (Or.inl rfl))
+  have hf1 := final_node h1
+  simp only [show ("n1" = "n0") = False from by decide, show ("n1" = "n2") = False from by decide,
+    false_and, or_false, false_or, true_and] at hf1
+  obtain ⟨hlbs, hloc, hleft⟩ := hf1
+  obtain ⟨V, hV, hver⟩ := C04_caught_up_after_settle hist sched allowed quiet joins "n0" "n1" (by decide) x0 x1 h0 h1
+  have hreg : ∀ e, x1.mgr.registry e = if "foo" = e then [3] else [] := by
+    intro e; simp only [Upstream.Mgr.registry, hlbs, AMap.find_cons, AMap.find_nil]; split <;> rfl
+  obtain ⟨hpend, row, hrow, _, _, hp, ha, hes, hst⟩ := C04_mirror_system _ allowed "n0" "n1" (by decide) x0 x1 h0 h1 V hV hver
+    hleft (by rw [hloc]; decide) (by rw [hloc]; decide) (fun e => by rw [hreg]; split <;> simp)
+  have hunr := no_unreachable_of_noLiveEvs (sysInv_runRev _ allowed) (noLiveEvs_runRev _ allowed noLiveness) h0 hV (by decide)
+  refine ⟨x0, row, h0, hrow, hpend, by rw [hp, hloc], by rw [ha, hloc], by rw [hst, hunr]; rfl, ?_, ?_⟩
+  · rw [hes, hreg]; simp
+  · rw [hes, hreg]; simp
 
 
 end Piko
